@@ -29,6 +29,10 @@ UNITS = {
     "ext_i": ("ext:EI", [("x", 1), ("y", 1), ("i", 1)], []),
     "ext_units": ("ext:EU", [("x", 1), ("y", 1), ("units", 1)], []),
     "ext_inner": ("ext:EN", [("x", 1), ("y", 1), ("inner", 1)], []),
+    # ... and like the first alternatives the generators fall back to as well
+    "ext_i2": ("ext:EI2", [("x", 1), ("y", 1), ("i", 1), ("i_", 1)], []),
+    "ext_units2": ("ext:EU2", [("x", 1), ("y", 1), ("units", 1), ("units_", 1), ("units__", 1)], []),
+    "ext_inner2": ("ext:EN2", [("x", 1), ("y", 1), ("inner", 1), ("inner_", 1)], []),
     "modbundle": ("mod:UB", [("a", 1), ("b", 1)], [("bp", "B1")]),
 }
 
